@@ -125,28 +125,43 @@ def textSpec (which : String) (args : List String) : Option String :=
 /-! one text value over a history (`texthist`): every observable is a function of the text's CURRENT characters; the only
 operation that changes them is 转换数值 (`strExecAtoi` stores the rewritten text back into the receiver) -/
 
-def histModel (i j : Int) : List Char → List Nat → List String
-  | [], _ => []
-  | 'l' :: r, t => ("ok " ++ toString (Model.TextOps.length t)) :: histModel i j r t
-  | 'c' :: r, t => listField ((Model.TextOps.chars t).map pieceField) :: histModel i j r t
-  | 's' :: r, t => (match Model.TextOps.slice t (toIntQuarter i) (toIntQuarter j) with
-      | .ok x => textField x
-      | .error .panic => "panic"
-      | .error _ => "err sig 4") :: histModel i j r t
-  | 'v' :: r, t => textField t :: histModel i j r t
-  | 'n' :: r, t => "n" :: histModel i j r (Model.TextOps.atoiRewrite t)
-  | _ :: _, _ => ["bad-op"]
+/-- the steps a word over l c s v n denotes (every `s` is 取样 with the same index pair), read up to the first letter
+that is none of these; `true` iff such a letter was met -/
+def parseSteps (i j : Int) : List Char → List Model.TextOps.Step × Bool
+  | [] => ([], false)
+  | 'l' :: r => let p := parseSteps i j r; (.len :: p.1, p.2)
+  | 'c' :: r => let p := parseSteps i j r; (.chars :: p.1, p.2)
+  | 's' :: r => let p := parseSteps i j r; (.slice (toIntQuarter i) (toIntQuarter j) :: p.1, p.2)
+  | 'v' :: r => let p := parseSteps i j r; (.text :: p.1, p.2)
+  | 'n' :: r => let p := parseSteps i j r; (.toNumber :: p.1, p.2)
+  | _ :: _ => ([], true)
 
-def histSpec (i j : Int) : List Char → List Nat → List String
-  | [], _ => []
-  | 'l' :: r, t => ("ok " ++ toString t.length) :: histSpec i j r t
-  | 'c' :: r, t => listField (t.map fun c => cpField [c]) :: histSpec i j r t
-  | 's' :: r, t => (match Spec.TextOps.slice t (toIntQuarter i) (toIntQuarter j) with
-      | .ok x => "ok " ++ cpField x
-      | .error _ => "err sig 4") :: histSpec i j r t
-  | 'v' :: r, t => ("ok " ++ cpField t) :: histSpec i j r t
-  | 'n' :: r, t => "n" :: histSpec i j r (Spec.TextOps.numberRewrite t)
-  | _ :: _, _ => ["bad-op"]
+def obsField : Model.TextOps.Obs → String
+  | .len n => "ok " ++ toString n
+  | .chars cs => listField (cs.map pieceField)
+  | .slice (.ok x) => textField x
+  | .slice (.error .panic) => "panic"
+  | .slice (.error _) => "err sig 4"
+  | .text t => textField t
+  | .converted => "n"
+
+def specObsField : Spec.TextOps.SpecObs → String
+  | .len n => "ok " ++ toString n
+  | .chars cs => listField (cs.map cpField)
+  | .slice (.ok x) => "ok " ++ cpField x
+  | .slice (.error _) => "err sig 4"
+  | .text t => "ok " ++ cpField t
+  | .converted => "n"
+
+/-- printer over `Model.TextOps.runHistory` -/
+def histModel (i j : Int) (w : List Char) (t : List Nat) : List String :=
+  let p := parseSteps i j w
+  (Model.TextOps.runHistory p.1 t).map obsField ++ (if p.2 then ["bad-op"] else [])
+
+/-- printer over `Spec.TextOps.runHistory` -/
+def histSpec (i j : Int) (w : List Char) (t : List Nat) : List String :=
+  let p := parseSteps i j w
+  (Spec.TextOps.runHistory p.1 t).map specObsField ++ (if p.2 then ["bad-op"] else [])
 
 def handle (op : String) (args : List String) : Option String :=
   match op, args with
